@@ -541,6 +541,26 @@ def timedelta_to_us(td: timedelta) -> int:
     return (td.days * 86400 + td.seconds) * 10**6 + td.microseconds
 
 
+class OutOfDomain(Exception):
+    """The requested construction is not one whose outcome this property defines (counted as a discard)."""
+
+
+def _nondefault_for(schema: Schema, fi: FI):
+    """Some non-default tree value for a singular field."""
+    if fi.wkt in ("timestamp", "duration"):
+        return 1_500_000
+    t = fi.wraps if fi.wkt == "wrapper" else fi.type
+    if t == "message":
+        sub = schema.msg(fi.msg)
+        for f in sub.fields:
+            if f.card == "single" and not f.oneof and f.type not in ("message",):
+                return {f.name: _nondefault_for(schema, f)}
+        return {}
+    if t == "enum":
+        return [n for n in schema.enums[fi.enum].numbers if n != 0][0] if len(schema.enums[fi.enum].numbers) > 1 else 5
+    return {"string": "x7", "bytes": b"x7", "bool": True, "float": 1.5, "double": 1.5}.get(t, 7)
+
+
 class BPAdapter:
     """tree -> betterproto message.
 
@@ -598,6 +618,23 @@ class BPAdapter:
         if route == "lazy":
             return self.fill_lazily(cls(), mi, tree, 1)
         kw = self.kwargs(cls, mi, tree)
+        if route == "kwargs_multi":
+            # the constructor is also handed EARLIER-declared members of every oneof group the tree selects a member
+            # of (non-default values): the later-declared member - the tree's - is the selected one
+            info = BPInfo.of(cls)
+            extra = {}
+            for fi in mi.fields:
+                if fi.oneof and fi.name not in tree:
+                    later = [g for g in mi.fields if g.oneof == fi.oneof and g.name in tree and mi.fields.index(g) > mi.fields.index(fi)]
+                    if later:
+                        extra[info.pyname(fi)] = self.single(info.elem_class(fi), fi, _nondefault_for(self.schema, fi), False)
+            m = cls(**{**extra, **kw})
+            import betterproto
+
+            for fi in mi.fields:
+                if fi.oneof and fi.name in tree and betterproto.which_one_of(m, fi.oneof)[0] != info.pyname(fi):
+                    raise OutOfDomain("constructor with several members of one group did not select the last declared one (C07 judges that)")
+            return m
         if route == "kwargs":
             return cls(**kw)
         m = cls()
